@@ -149,6 +149,14 @@ func gsApply(gs *graphicsstate.GraphicsState, o gOp, k int) (*shown, error) {
 		s := obs()
 		gs.ShowText("xy")
 		return s, nil
+	case "'e":
+		gs.NextLine()
+		gs.ShowText("")
+	case "dqe":
+		gs.SetWordSpacing(float64(o.A[0]))
+		gs.SetCharSpacing(float64(o.A[1]))
+		gs.NextLine()
+		gs.ShowText("")
 	case "Do":
 		gs.Save()
 		gs.Transform(mat(o.A))
@@ -192,6 +200,10 @@ func renderProg(prog []gOp) ([]byte, map[string][2]string) {
 			fmt.Fprintf(&b, "(t%d) '", k)
 		case "dq":
 			fmt.Fprintf(&b, "%s (t%d) \"", nums(o.A), k)
+		case "'e":
+			b.WriteString("() '")
+		case "dqe":
+			b.WriteString(nums(o.A) + " () \"")
 		case "Do":
 			name := fmt.Sprintf("Fm%d", k)
 			forms[name] = [2]string{nums(o.A), fmt.Sprintf("BT (t%d) Tj ET", k)}
